@@ -452,6 +452,12 @@ JudgeDml(e, L, R, indexed) ==
              THEN {<<"DmlMatchesSqlModel", "wrong-values">>} ELSE {})
        \cup (IF st.op = "update" /\ "rows_updated" \in DOMAIN e.extra /\ e.extra.rows_updated # Cardinality(nObs)
              THEN {<<"DmlMatchesSqlModel", "rows-updated-count">>} ELSE {})
+  \* a valid statement through an up-to-date handle must be carried out (conflicts are a matter of C03/C04;
+  \* a merge_insert that is configured to change nothing is refused as invalid input)
+  ELSE IF /\ R = L /\ ~eff.mustFail /\ e.res \notin {"retryable", "incompatible", "contention"}
+          /\ ~(st.op = "merge_insert" /\ "in_place" \notin DOMAIN st /\ "matched" \in DOMAIN st
+               /\ st.matched = "do_nothing" /\ st.not_matched = "do_nothing" /\ st.nmbs = "keep")
+       THEN {<<"DmlMatchesSqlModel", "refused-valid-statement">>}
   ELSE {}
 
 Ops == {"create","append","overwrite","checkout","refresh","delete","update","merge_insert","compact","restore","reread","validate",
